@@ -93,9 +93,21 @@ def diblock_omega(k, block, sigma, nA, nB):
     return out / norm
 
 
+def _num(x, style):
+    """the same number as a float, a numpy scalar or (when integral) a Python int - users type all three"""
+    if style == 'np':
+        return np.float64(x)
+    if style == 'int' and float(x) == int(x):
+        return int(x)
+    return x
+
+
 def build(cfg):
     import pyPRISM
     T = list(cfg['types'])
+    ns = cfg.get('num_style', 'float')
+    cfg = dict(cfg, kT=_num(cfg['kT'], ns), rho={t: _num(v, ns) for t, v in cfg['rho'].items()},
+               diam={t: _num(v, ns) for t, v in cfg['diam'].items()})
     s = pyPRISM.System(T, kT=cfg['kT'])
     s.domain = pyPRISM.Domain(length=cfg['length'], dr=cfg['dr'])
     # the order of the user's assignment statements is independent of the order of the type list
